@@ -16,11 +16,12 @@ package cppki
 
 import (
 	"crypto/x509/pkix"
+	"encoding/asn1"
 	"reflect"
 )
 
 func equalName(name, other pkix.Name) bool {
-	rdn1, rdn2 := name.ToRDNSequence(), other.ToRDNSequence()
+	rdn1, rdn2 := toRDNSequence(name), toRDNSequence(other)
 	// quick check: if the strings don't match, they can't be equal.
 	if rdn1.String() != rdn2.String() {
 		return false
@@ -62,4 +63,33 @@ func rdnSETSubset(rdns1, rdns2 pkix.RelativeDistinguishedNameSET) bool {
 		}
 	}
 	return true
+}
+
+// oidsWithNameField lists the attribute types that pkix.Name keeps in a
+// dedicated field and that pkix.Name.ToRDNSequence therefore covers.
+var oidsWithNameField = []asn1.ObjectIdentifier{
+	{2, 5, 4, 3},  // common name
+	{2, 5, 4, 5},  // serial number
+	{2, 5, 4, 6},  // country
+	{2, 5, 4, 7},  // locality
+	{2, 5, 4, 8},  // province
+	{2, 5, 4, 9},  // street address
+	{2, 5, 4, 10}, // organization
+	{2, 5, 4, 11}, // organizational unit
+	{2, 5, 4, 17}, // postal code
+}
+
+// toRDNSequence converts the name to an RDN sequence that covers all of its
+// attributes. pkix.Name.ToRDNSequence ignores the Names field; for a parsed
+// name that is the only place where attributes without a dedicated field, like
+// the ISD-AS number, are kept. They are appended here, such that two names that
+// differ only in such an attribute are not considered equal.
+func toRDNSequence(name pkix.Name) pkix.RDNSequence {
+	seq := name.ToRDNSequence()
+	for _, atv := range name.Names {
+		if !containsOID(oidsWithNameField, atv.Type) {
+			seq = append(seq, pkix.RelativeDistinguishedNameSET{atv})
+		}
+	}
+	return seq
 }
